@@ -9,10 +9,12 @@ CONSTANTS MaxSend, MaxRecv, MaxAfter
 VARIABLES h, kind, kprog, kn, kdone, kcanc, kafter
 kv == <<kind, h, kprog, kn, kdone, kcanc, kafter>>
 KHandlers == { [hrecv |-> a, hsend |-> b, hdrain |-> d, hret |-> r] : a \in 0..2, b \in 0..2, d \in BOOLEAN, r \in {"ok", "err", "stall"} }
-KInit == /\ kind \in {"server", "client"} /\ h \in KHandlers /\ kprog = <<>> /\ kn = 0 /\ kdone = FALSE /\ kcanc = "no" /\ kafter = 0
+\* a server-streaming handler that keeps sending until a Send fails (the client has gone away)
+KFlood == [hrecv |-> 1, hsend |-> 1, hdrain |-> FALSE, hret |-> "ok", hflood |-> TRUE]
+KInit == /\ kind \in {"server", "client"} /\ h \in (KHandlers \cup {KFlood}) /\ kprog = <<>> /\ kn = 0 /\ kdone = FALSE /\ kcanc = "no" /\ kafter = 0
          \* the framework reads the single request -- unless an interceptor rejects the call first (hrecv = 0)
          /\ (kind = "server" => ~h.hdrain /\ (h.hrecv = 1 \/ (h.hrecv = 0 /\ h.hsend = 0 /\ h.hret = "err")))
-         /\ (kind = "client" => h.hsend = 1)                          \* one response message
+         /\ (kind = "client" => h.hsend = 1 /\ h # KFlood)            \* one response message
 KBudget == kcanc = "no" \/ kafter < MaxAfter
 KOp(o) == kprog' = Append(kprog, [op |-> o]) /\ kafter' = IF kcanc = "no" THEN kafter ELSE kafter + 1
 \* a stalling handler only returns once the context ended: operations that wait for it need a cancellation first
